@@ -31,9 +31,9 @@ Definition cview (s : st) := (g_done s, s_queue s, h_next s, g_accepted s).
 
 Definition ctrans (s s' : st) : Prop :=
   cview s' = cview s \/
-  (exists id cb rest rep parts, s_queue s = (id, cb) :: rest /\
-     cview s' = (g_done s ++ [mkComp id K_ANSWERED rep parts], rest, h_next s, g_accepted s)) \/
-  cview s' = (g_done s ++ [mkComp (h_next s) K_REJECTED fts []], s_queue s, h_next s + 1, g_accepted s) \/
+  (exists id cb rest rep parts fr, s_queue s = (id, cb) :: rest /\
+     cview s' = (g_done s ++ [mkComp id K_ANSWERED rep parts fr], rest, h_next s, g_accepted s)) \/
+  cview s' = (g_done s ++ [mkComp (h_next s) K_REJECTED fts [] []], s_queue s, h_next s + 1, g_accepted s) \/
   (exists cb, cview s' = (g_done s, s_queue s ++ [(h_next s, cb)], h_next s + 1,
                           g_accepted s ++ [h_next s])).
 
@@ -68,23 +68,23 @@ Proof.
 Qed.
 Definition cpop (s s' : st) : Prop :=
   cview s' = cview s \/
-  (exists id cb rest rep parts, s_queue s = (id, cb) :: rest /\
-     cview s' = (g_done s ++ [mkComp id K_ANSWERED rep parts], rest, h_next s, g_accepted s)).
-Lemma run_callback_cv rep parts s ag s' ag' : run_callback rep parts s ag = (s', ag') -> cpop s s'.
+  (exists id cb rest rep parts fr, s_queue s = (id, cb) :: rest /\
+     cview s' = (g_done s ++ [mkComp id K_ANSWERED rep parts fr], rest, h_next s, g_accepted s)).
+Lemma run_callback_cv rep parts fr s ag s' ag' : run_callback rep parts fr s ag = (s', ag') -> cpop s s'.
 Proof.
   unfold run_callback, cpop. intros H.
   destruct (s_queue s) as [|[id cb] q] eqn:E.
   - inversion H; subst. left. reflexivity.
-  - inversion H; subst. right. exists id, cb, q, rep, parts. split; [reflexivity|].
+  - inversion H; subst. right. exists id, cb, q, rep, parts, fr. split; [reflexivity|].
     unfold cview; cbn. reflexivity.
 Qed.
 Lemma cpop_eqv s0 s s' : cview s0 = cview s -> cpop s0 s' -> cpop s s'.
 Proof.
-  unfold cpop, cview. intros E [H|(id & cb & rest & rep & parts & Hq & H)]; inversion E as [[E1 E2 E3 E4]].
+  unfold cpop, cview. intros E [H|(id & cb & rest & rep & parts & fr & Hq & H)]; inversion E as [[E1 E2 E3 E4]].
   - left. congruence.
-  - right. exists id, cb, rest, rep, parts. split; congruence.
+  - right. exists id, cb, rest, rep, parts, fr. split; congruence.
 Qed.
-Lemma handle_cv rep s ag s' ag' : handle rep s ag = (s', ag') -> cpop s s'.
+Lemma handle_cv from rep s ag s' ag' : handle from rep s ag = (s', ag') -> cpop s s'.
 Proof.
   unfold handle. intros H.
   destruct (is_nil (s_queue (set_s_pending false s))).
@@ -101,14 +101,14 @@ Proof.
   intros H. unfold ctrans.
   assert (Hpop : forall s0, cview s0 = cview s -> cpop s0 s' ->
      cview s' = cview s \/
-     (exists id cb rest rep parts, s_queue s = (id, cb) :: rest /\
-        cview s' = (g_done s ++ [mkComp id K_ANSWERED rep parts], rest, h_next s, g_accepted s)) \/
-     cview s' = (g_done s ++ [mkComp (h_next s) K_REJECTED fts []], s_queue s, h_next s + 1, g_accepted s) \/
+     (exists id cb rest rep parts fr, s_queue s = (id, cb) :: rest /\
+        cview s' = (g_done s ++ [mkComp id K_ANSWERED rep parts fr], rest, h_next s, g_accepted s)) \/
+     cview s' = (g_done s ++ [mkComp (h_next s) K_REJECTED fts [] []], s_queue s, h_next s + 1, g_accepted s) \/
      (exists cb, cview s' = (g_done s, s_queue s ++ [(h_next s, cb)], h_next s + 1,
                           g_accepted s ++ [h_next s]))).
   { intros s0 E Hp. apply (cpop_eqv _ _ _ E) in Hp. destruct Hp as [Hp|Hp]; auto. }
   destruct f as [[cb|full cb| | |r|]| | |]; cbn [step do_op] in H.
-  - destruct (s_max (set_h_next (h_next s + 1) s) <=? len (s_queue (set_h_next (h_next s + 1) s))).
+  - destruct (s_max s <=? len (s_queue s)).
     + inversion H; subst. right; right; left. reflexivity.
     + apply take_next_cv in H. right; right; right. exists cb. rewrite H. reflexivity.
   - destruct (s_discov s).
@@ -144,7 +144,7 @@ Qed.
 Lemma ctrans_C s s' : InvC s -> ctrans s s' -> InvC s'.
 Proof.
   intros [Hcnt Hacc Hso Hb Hk] Ht. unfold ctrans, cview in Ht.
-  destruct Ht as [E|[(id & cb & rest & rep & parts & Eq & E)|[E|(cb & E)]]]; inversion E as [[E1 E2 E3 E4]];
+  destruct Ht as [E|[(id & cb & rest & rep & parts & fr & Eq & E)|[E|(cb & E)]]]; inversion E as [[E1 E2 E3 E4]];
     clear E.
   - constructor; rewrite ?E1, ?E2, ?E3, ?E4; auto.
   - constructor; rewrite ?E1, ?E2, ?E3, ?E4; auto.
